@@ -224,6 +224,19 @@ type vsPeer struct {
 	tracks int
 	dcs    int
 	preIDs int // transceivers known before the last remote offer was applied
+	// mids of every description applied so far, and whether a transceiver carried a mid from a local
+	// offer that was never applied when the last remote offer arrived
+	applied map[string]bool
+	stale   bool
+}
+
+func (p *vsPeer) noteStale() {
+	p.stale = false
+	for _, tr := range p.pc.GetTransceivers() {
+		if m := tr.Mid(); m != "" && !p.applied[m] {
+			p.stale = true
+		}
+	}
 }
 
 func (p *vsPeer) transceivers() []vkM {
@@ -293,11 +306,19 @@ func (r *vsRun) logDesc(p *vsPeer, op string, d SessionDescription, err error, s
 		vsClassify(p, proj, offer)
 	}
 	line["offer"] = offer
+	if op == "CreateAnswer" && p.stale {
+		step += ",mids-from-unapplied-offer"
+	}
 	line["sig"] = fmt.Sprintf("%s(%s,%s)", op, r.cfg, step)
 	r.emit(line)
 }
 
 func (r *vsRun) logApply(p *vsPeer, side string, d SessionDescription, err error, step string) {
+	if err == nil {
+		for _, m := range vsMids(d.SDP) {
+			p.applied[m] = true
+		}
+	}
 	r.emit(vkM{
 		"ev": "apply", "t": r.id, "who": p.name, "side": side, "type": d.Type.String(), "ok": err == nil, "cfg": r.cfg,
 		"mids": vsMids(d.SDP), "hasApp": strings.Contains(d.SDP, "m=application"), "trs": p.transceivers(), "sig": fmt.Sprintf("Set%s(%s,%s)", side, d.Type.String(), step),
@@ -409,6 +430,7 @@ func (r *vsRun) negotiate(off, ans *vsPeer, step string) {
 	}
 	ans.transceivers()
 	ans.preIDs = len(ans.trIDs)
+	ans.noteStale()
 	err = ans.pc.SetRemoteDescription(offer)
 	r.logApply(ans, "Remote", offer, err, step)
 	if err != nil {
@@ -480,6 +502,7 @@ func (r *vsRun) step(st vsStep) {
 		sd := SessionDescription{Type: SDPTypeOffer, SDP: vsSynthOffer(st.Offer, st.Session)}
 		p.transceivers()
 		p.preIDs = len(p.trIDs)
+		p.noteStale()
 		err := p.pc.SetRemoteDescription(sd)
 		r.logApply(p, "Remote", sd, err, "synthetic")
 		if err != nil {
@@ -677,8 +700,8 @@ func vsRunBehaviour(t *testing.T, bh vsBehaviour) []vkM {
 	if cfg == "" {
 		cfg = "default"
 	}
-	a := &vsPeer{name: "A", pc: vsNewPC(t, cfg), trIDs: map[*RTPTransceiver]int{}}
-	b := &vsPeer{name: "B", pc: vsNewPC(t, cfg), trIDs: map[*RTPTransceiver]int{}}
+	a := &vsPeer{name: "A", pc: vsNewPC(t, cfg), trIDs: map[*RTPTransceiver]int{}, applied: map[string]bool{}}
+	b := &vsPeer{name: "B", pc: vsNewPC(t, cfg), trIDs: map[*RTPTransceiver]int{}, applied: map[string]bool{}}
 	defer func() {
 		_ = a.pc.Close()
 		_ = b.pc.Close()
